@@ -2,6 +2,7 @@ import DSV.Lemmas.AggsFun
 import DSV.Lemmas.Sched
 import DSV.Lemmas.StepWF
 import DSV.Props.C11
+import DSV.Props.C01Mercury
 /-!
 # C01 — consensus functions are deterministic
 
